@@ -353,21 +353,62 @@ def _recv_name(call):
     return None
 
 
+_CAP_CTX = {"consts": {}, "inline": {}}
+
+
+def _cap_context(cls, fn):
+    """names of fn bound once to an int constant, and zero-argument methods of cls that only return an expression"""
+    consts, counts = {}, {}
+    for n in ast.walk(fn):
+        if isinstance(n, ast.Assign) and len(n.targets) == 1 and isinstance(n.targets[0], ast.Name):
+            nm = n.targets[0].id
+            counts[nm] = counts.get(nm, 0) + 1
+            if isinstance(n.value, ast.Constant) and isinstance(n.value.value, int):
+                consts[nm] = n.value.value
+        elif isinstance(n, (ast.AugAssign, ast.AnnAssign)) and isinstance(n.target, ast.Name):
+            counts[n.target.id] = counts.get(n.target.id, 0) + 2
+    consts = {k: v for k, v in consts.items() if counts.get(k) == 1}
+    inline = {}
+    if cls is not None:
+        for mname, m in methods(cls).items():
+            body = [b for b in m.body if not (isinstance(b, ast.Expr) and isinstance(b.value, ast.Constant))]
+            if len(m.args.args) == 1 and len(body) == 1 and isinstance(body[0], ast.Return) and body[0].value is not None:
+                inline["self.%s()" % mname] = "(" + ast.unparse(body[0].value) + ")"
+    _CAP_CTX["consts"], _CAP_CTX["inline"] = consts, inline
+
+
 def _is_capacity_idiom(stmt):
-    """`if (len(self._buffer) - self._offset) < N: self.flush()` -> N"""
+    """`if (len(self._buffer) - self._offset) < N: self.flush()` -> N   (the free space may be computed by a
+    one-line method, N may be a local bound once to a constant, the comparison may be written either way round)"""
     if not isinstance(stmt, ast.If) or stmt.orelse:
         return None
     t = stmt.test
-    if not (isinstance(t, ast.Compare) and len(t.ops) == 1 and isinstance(t.ops[0], ast.Lt)):
+    if isinstance(t, ast.UnaryOp) and isinstance(t.op, ast.Not) and isinstance(t.operand, ast.Compare) and len(t.operand.ops) == 1:
+        inv = {ast.GtE: ast.Lt, ast.LtE: ast.Gt}
+        if type(t.operand.ops[0]) in inv:
+            t = ast.Compare(left=t.operand.left, ops=[inv[type(t.operand.ops[0])]()], comparators=t.operand.comparators)
+    if not (isinstance(t, ast.Compare) and len(t.ops) == 1):
         return None
-    left = ast.unparse(t.left).replace(" ", "").strip("()")
+    lhs, rhs = t.left, t.comparators[0]
+    if isinstance(t.ops[0], ast.Gt):
+        lhs, rhs = rhs, lhs
+    elif not isinstance(t.ops[0], ast.Lt):
+        return None
+    left = ast.unparse(lhs)
+    for k, v in _CAP_CTX["inline"].items():
+        left = left.replace(k, v)
+    left = left.replace(" ", "")
+    while left.startswith("(") and left.endswith(")"):
+        left = left[1:-1]
     if left != "len(self._buffer)-self._offset":
         return None
     body = stmt.body
     if len(body) == 1 and isinstance(body[0], ast.Expr) and isinstance(body[0].value, ast.Call) and ast.unparse(body[0].value) == "self.flush()":
-        r = t.comparators[0]
+        r = rhs
         if isinstance(r, ast.Constant) and isinstance(r.value, int):
             return r.value
+        if isinstance(r, ast.Name) and r.id in _CAP_CTX["consts"]:
+            return _CAP_CTX["consts"][r.id]
         return 1 if isinstance(r, (ast.Name, ast.Attribute)) else None  # `< size`: at least what is about to be packed
     return None
 
@@ -483,6 +524,7 @@ def rule_py_capacity(out):
             if "write_byte_no_check" not in src or mname == "write_byte_no_check":
                 continue
             qual = "%s.%s" % (cname, mname)
+            _cap_context(cls, fn)
             streams = {"stream", "self._stream"}
             if cname == "CodedOutputStream":
                 streams = {"self"}
